@@ -1,10 +1,10 @@
 (* C10 — Integer, floating-point, YEAR, BIT, ENUM and SET values decode exactly.
    Only statements closed by `exact`, Examples and Print Assumptions.
-   `cell_ok ffmt tz jsonp ty uns v` (Proofs/CellCommon.v) says: for every
+   `cell_ok ffmt tz efmt jsonp ty uns v` (Proofs/CellCommon.v) says: for every
    surrounding context pre/rest, CellBytes on pre ++ enc_cell ty v ++ rest at
-   offset |pre| returns (text ty uns v, |enc_cell ty v|) and cellLength returns
-   |enc_cell ty v|.  The oracles ffmt (strconv.AppendFloat 'f' -1), tz and jsonp
-   are universally quantified. *)
+   offset |pre| returns (text ffmt tz efmt ty uns v, |enc_cell ty v|) and cellLength returns
+   |enc_cell ty v|.  The oracles ffmt (strconv.AppendFloat 'f' -1), tz, efmt (strconv.AppendFloat 'E' -1,
+   used by JSON values only) and jsonp are universally quantified. *)
 From GB Require Import Base.Prelude Base.DecText Model.Cell Spec.Values.
 From GB Require Import Proofs.CellCommon Proofs.CellInt Proofs.CellSimple.
 Open Scope Z_scope.
@@ -27,35 +27,35 @@ Proof.
 Qed.
 Print Assumptions C10_decimal_text_denotes.
 
-Theorem C10_year : forall ffmt tz jsonp uns b,
-  wf_value TYear uns (VYear b) = true -> cell_ok ffmt tz jsonp TYear uns (VYear b).
+Theorem C10_year : forall ffmt tz efmt jsonp uns b,
+  wf_value TYear uns (VYear b) = true -> cell_ok ffmt tz efmt jsonp TYear uns (VYear b).
 Proof. exact year_ok. Qed.
 Print Assumptions C10_year.
 
-Theorem C10_float : forall ffmt tz jsonp uns b,
-  wf_value TFloat uns (VFloat b) = true -> cell_ok ffmt tz jsonp TFloat uns (VFloat b).
+Theorem C10_float : forall ffmt tz efmt jsonp uns b,
+  wf_value TFloat uns (VFloat b) = true -> cell_ok ffmt tz efmt jsonp TFloat uns (VFloat b).
 Proof. exact float_ok. Qed.
 Print Assumptions C10_float.
 
-Theorem C10_double : forall ffmt tz jsonp uns b,
-  wf_value TDouble uns (VFloat b) = true -> cell_ok ffmt tz jsonp TDouble uns (VFloat b).
+Theorem C10_double : forall ffmt tz efmt jsonp uns b,
+  wf_value TDouble uns (VFloat b) = true -> cell_ok ffmt tz efmt jsonp TDouble uns (VFloat b).
 Proof. exact double_ok. Qed.
 Print Assumptions C10_double.
 
-Theorem C10_bit : forall ffmt tz jsonp n uns bs,
-  wf_type (TBit n) = true -> wf_value (TBit n) uns (VBits bs) = true -> cell_ok ffmt tz jsonp (TBit n) uns (VBits bs).
+Theorem C10_bit : forall ffmt tz efmt jsonp n uns bs,
+  wf_type (TBit n) = true -> wf_value (TBit n) uns (VBits bs) = true -> cell_ok ffmt tz efmt jsonp (TBit n) uns (VBits bs).
 Proof. exact bit_ok. Qed.
 Print Assumptions C10_bit.
 
-Theorem C10_enum : forall ffmt tz jsonp w bare uns i,
+Theorem C10_enum : forall ffmt tz efmt jsonp w bare uns i,
   wf_type (TEnum w bare) = true -> wf_value (TEnum w bare) uns (VEnum i) = true ->
-  cell_ok ffmt tz jsonp (TEnum w bare) uns (VEnum i).
+  cell_ok ffmt tz efmt jsonp (TEnum w bare) uns (VEnum i).
 Proof. exact enum_ok. Qed.
 Print Assumptions C10_enum.
 
-Theorem C10_set : forall ffmt tz jsonp w bare uns m,
+Theorem C10_set : forall ffmt tz efmt jsonp w bare uns m,
   wf_type (TSet w bare) = true -> wf_value (TSet w bare) uns (VSet m) = true ->
-  cell_ok ffmt tz jsonp (TSet w bare) uns (VSet m).
+  cell_ok ffmt tz efmt jsonp (TSet w bare) uns (VSet m).
 Proof. exact set_ok. Qed.
 Print Assumptions C10_set.
 
@@ -63,6 +63,20 @@ Example C10_nonvacuous :
   wf_value TInt24 false (VInt (-8388608)) = true /\ wf_value TLongLong true (VInt 18446744073709551615) = true /\
   wf_type (TBit 12) = true /\ wf_value (TBit 12) false (VBits [15; 255]) = true /\
   wf_value (TSet 8 false) false (VSet 9223372036854775808) = true /\
-  text (fun _ _ => []) (fun _ => 0) TInt24 false (VInt (-8388608)) = [45; 56; 51; 56; 56; 54; 48; 56] /\
-  text (fun _ _ => []) (fun _ => 0) TYear false (VYear 0) = [48; 48; 48; 48].
+  text (fun _ _ => []) (fun _ => 0) (fun _ => []) TInt24 false (VInt (-8388608)) = [45; 56; 51; 56; 56; 54; 48; 56] /\
+  text (fun _ _ => []) (fun _ => 0) (fun _ => []) TYear false (VYear 0) = [48; 48; 48; 48].
 Proof. repeat split; vm_compute; reflexivity. Qed.
+
+(* ---------------------------------------------------------------------------------------------------------------
+   Source pins.  The model functions used above are a hand-written reading of these Go functions (they have closures,
+   channels, interfaces or maps, which the translator gotrans does not accept).  gosync regenerates their normalised
+   text (logging calls and comments removed) into gen/Source.v on every run; it must equal the committed snapshot
+   Spec/SourceSnapshot.v the models were written and validated against.  When one of them is edited the Example
+   naming it fails, the check runs the thorough harness in search of a failing input, and reports the property as no
+   longer shown to hold (with the input, or no-failing-input-found). *)
+From GB Require Proofs.SourcePins Spec.SourceSnapshot.
+From GBGen Require Source.
+Example C10_pin_getValuesFromRow : Source.src_getValuesFromRow = SourceSnapshot.src_getValuesFromRow.
+Proof. exact SourcePins.pin_getValuesFromRow. Qed.
+Example C10_pin_getIdentifiesFromRow : Source.src_getIdentifiesFromRow = SourceSnapshot.src_getIdentifiesFromRow.
+Proof. exact SourcePins.pin_getIdentifiesFromRow. Qed.
